@@ -84,6 +84,7 @@ package store
 //@   local upNodeID string#1
 //@   local nodeID string#2
 //@   local points data.Points#1
+//@   local sub string#3
 //@   local ups []string#1
 //@   requires st != nil && st.db != nil && acyclic(st.db)
 //@   modifies state(st.nc), state(st.db.db), points
@@ -111,6 +112,7 @@ package store
 //@   local nodeID string#2
 //@   local parentID string#3
 //@   local points data.Points#1
+//@   local sub string#4
 //@   local ups []string#1
 //@   requires st != nil && st.db != nil && acyclic(st.db)
 //@   modifies state(st.nc), state(st.db.db), points
@@ -153,6 +155,8 @@ package store
 //@   props C06, C04, C05
 //@   local st *store.Store#1
 //@   local msg *nats.Msg#1
+//@   local nodeID string#1
+//@   local points []data.Point#1
 //@   local err error#1
 //@   requires st != nil && st.db != nil && st.db.db != nil && msg != nil && acyclic(st.db)
 //@   modifies state(st.nc), state(st.db.db), state(sql.Tx), state(st)
@@ -167,6 +171,9 @@ package store
 //@   props C06, C05, C04
 //@   local st *store.Store#1
 //@   local msg *nats.Msg#1
+//@   local nodeID string#1
+//@   local parentID string#2
+//@   local points []data.Point#1
 //@   local err error#1
 //@   requires st != nil && st.db != nil && st.db.db != nil && msg != nil && acyclic(st.db)
 //@   modifies state(st.nc), state(st.db.db), state(st.db), state(sql.Tx), state(st), &st.db.meta.RootID
@@ -301,15 +308,19 @@ package store
 //@ model func keyBound(db *sql.DB) []byte
 //@ extern crypto/rand.Read(b)
 //@   modifies b
+// a statement executed directly on the database handle is its own transaction: allowed only while this code has no
+// transaction of its own open (inside nodePoints / edgePoints every write has to go through the one open tx)
 //@ extern database/sql.(*DB).Exec(db, query, args)
+//@   requires db != nil && openTxs(db) == 0
 //@ func (*DbSqlite).initJwtKey
 //@   props C04
 //@   local sdb *store.DbSqlite#1
 //@   local err error#1
-//@   requires sdb != nil
+//@   requires sdb != nil && sdb.db != nil && openTxs(sdb.db) == 0
+//@   ensures openTxs(sdb.db) == 0
 //@   modifies &sdb.meta.JWTKey, state(sdb.db)
 //@   havoc state(sdb.db) at "sdb.db.Exec(\"UPDATE meta SET jwt_key = ?\", sdb.meta.JWTKey)"
-//@   assume key-bound-noted: sameSlice(keyBound(sdb.db), sdb.meta.JWTKey) at "sdb.db.Exec(\"UPDATE meta SET jwt_key = ?\", sdb.meta.JWTKey)"
+//@   assume key-bound-noted: sameSlice(keyBound(sdb.db), sdb.meta.JWTKey) && openTxs(sdb.db) == before(openTxs(sdb.db)) at "sdb.db.Exec(\"UPDATE meta SET jwt_key = ?\", sdb.meta.JWTKey)"
 //@   assert [C04] a-real-key-is-stored: len(sdb.meta.JWTKey) == 20 at "sdb.db.Exec(\"UPDATE meta SET jwt_key = ?\", sdb.meta.JWTKey)"
 //@   ensures [C04] key-in-use-is-the-stored-one: err == nil ==> len(sdb.meta.JWTKey) == 20 && sameSlice(sdb.meta.JWTKey, keyBound(sdb.db))
 
@@ -317,7 +328,7 @@ package store
 // row read back has none (idempotent initialisation).
 //@ extern database/sql.Open(driver, dsn)
 //@   fresh res0
-//@   ensures res1 == nil ==> res0 != nil
+//@   ensures res1 == nil ==> res0 != nil && openTxs(res0) == 0
 //@ extern database/sql.(*DB).QueryRow(db, query, args)
 //@   fresh res0
 //@   ensures res0 != nil
@@ -328,21 +339,25 @@ package store
 //@   local sdb *store.DbSqlite#1
 //@   local rows *sql.Rows#1
 //@   local count int#1
-//@   requires sdb != nil
+//@   requires sdb != nil && sdb.db != nil && openTxs(sdb.db) == 0
+//@   ensures openTxs(sdb.db) == 0
 //@   modifies &sdb.meta.ID, &sdb.meta.Version, &sdb.meta.RootID, &sdb.meta.JWTKey, state(sdb.db)
 //@   wrap64
 //@   assert [C04] meta-row-created-only-when-there-is-none: count < 1 at "sdb.db.Exec(\"INSERT INTO meta(id, version, root_id) VALUES(?, ?, ?)\", 0, 0, \"\")"
 //@   loop 1:
-//@     invariant rows != nil
+//@     invariant rows != nil && openTxs(sdb.db) == 0
 //@     modifies &sdb.meta.ID, &sdb.meta.Version, &sdb.meta.RootID, &sdb.meta.JWTKey, state(sdb.db)
 //@ extern store.(*DbSqlite).runMigrations(sdb)
 //@   requires sdb != nil
 //@   modifies &sdb.meta.Version, state(sdb.db)
+//@   ensures openTxs(sdb.db) == old(openTxs(sdb.db))
 //@ extern store.(*DbSqlite).initRoot(sdb, rootID)
 //@   requires sdb != nil
 //@   modifies state(sdb.db)
+//@   ensures openTxs(sdb.db) == old(openTxs(sdb.db))
 //@ func NewSqliteDb
 //@   props C04
+//@   local rootID string#2
 //@   local ret *store.DbSqlite#1
 //@   modifies state(sql.DB)
 //@   assert [C04] root-created-only-when-missing: ret.meta.RootID == "" at "ret.initRoot(rootID)"
@@ -403,18 +418,20 @@ package store
 //@ func (*DbSqlite).nodePoints
 //@   props C04, C05, C01
 //@   local sdb *store.DbSqlite#1
+//@   local id string#1
 //@   local points data.Points#1
 //@   local tx *sql.Tx#1
 //@   local dbPoints data.Points#2
 //@   local dbPointIDs []string#1
-//@   local p data.Point#1
-//@   local pID string#2
+//@   local p data.Point#1,4
+//@   local pID string#2,4
 //@   local writePoints data.Points#3
 //@   local writePointIDs []string#2
 //@   local pIn data.Point#2
 //@   local j int#1
 //@   local stmt *sql.Stmt#1
 //@   local i int#2
+//@   local tNs int64#2
 //@   assert [C01] row-written: i == rangeindex4 && p == writePoints[i] && pID == writePointIDs[i] at "stmt.Exec(pID, id, p.Type, p.Key, tNs, 0, p.Value, p.Text, p.Data, p.Tombstone, p.Origin)"
 //@   assert [C01] whole-batch-merged: forall k int :: triggers(mustW(dbPoints, points, k)) ==> (0 <= k && k < len(points) && mustW(dbPoints, points, k) ==> (exists w int :: 0 <= w && w < len(writePoints) && fromBatch(writePoints[w], points[k]))) at "tx.Prepare(`INSERT INTO node_points(id, node_id, type, key, time, idx, value, text, data, tombstone, origin) VALUES(?, ?, ?, ?, ?, ?, ?, ?, ?, ?, ?) ON CONFLICT(id) DO UPDATE SET type = ?3, key = ?4, time = ?5, idx = ?6, value = ?7, text = ?8, data = ?9, tombstone = ?10, origin = ?11 `)"
 //@   assert [C01] merge-written-from-batch: forall w int :: 0 <= w && w < len(writePoints) ==> (exists k int :: 0 <= k && k < len(points) && fromBatch(writePoints[w], points[k])) at "tx.Prepare(`INSERT INTO node_points(id, node_id, type, key, time, idx, value, text, data, tombstone, origin) VALUES(?, ?, ?, ?, ?, ?, ?, ?, ?, ?, ?) ON CONFLICT(id) DO UPDATE SET type = ?3, key = ?4, time = ?5, idx = ?6, value = ?7, text = ?8, data = ?9, tombstone = ?10, origin = ?11 `)"
@@ -480,14 +497,15 @@ package store
 //@ func (*DbSqlite).edgePoints
 //@   props C04, C05, C01
 //@   local sdb *store.DbSqlite#1
-//@   local nodeID string#1
+//@   local nodeID string#1,4,8
 //@   local parentID string#2
 //@   local points data.Points#1
-//@   local p data.Point#1
+//@   local p data.Point#1,2,5,6
 //@   local tx *sql.Tx#1
+//@   local edge data.Edge#1
 //@   local dbPoints data.Points#2
 //@   local dbPointIDs []string#1
-//@   local pID string#3
+//@   local pID string#3,6,7
 //@   local writePoints data.Points#3
 //@   local writePointIDs []string#2
 //@   local nodeType string#5
@@ -495,6 +513,7 @@ package store
 //@   local j int#1
 //@   local stmt *sql.Stmt#1
 //@   local i int#2
+//@   local tNs int64#2
 //@   local children []data.Edge#2
 //@   assert [C01] whole-batch-merged: forall k int :: triggers(mustW(dbPoints, points, k)) ==> (0 <= k && k < len(points) && points[k].Type != "nodeType" && mustW(dbPoints, points, k) ==> (exists w int :: 0 <= w && w < len(writePoints) && fromBatch(writePoints[w], points[k]))) at "tx.Prepare(`INSERT INTO edge_points(id, edge_id, type, key, time, idx, value, text, data, tombstone, origin) VALUES(?, ?, ?, ?, ?, ?, ?, ?, ?, ?, ?) ON CONFLICT(id) DO UPDATE SET type = ?3, key = ?4, time = ?5, idx = ?6, value = ?7, text = ?8, data = ?9, tombstone = ?10, origin = ?11 `)"
 //@   assert [C01] row-written: i == rangeindex5 && p == writePoints[i] && pID == writePointIDs[i] at "stmt.Exec(pID, edge.ID, p.Type, p.Key, tNs, 0, p.Value, p.Text, p.Data, p.Tombstone, p.Origin)"
